@@ -11,6 +11,8 @@ pub mod c05;
 pub mod c06;
 #[cfg(feature = "c10")]
 pub mod c10;
+#[cfg(feature = "c13")]
+pub mod c13;
 #[cfg(feature = "c14")]
 pub mod c14;
 
